@@ -78,6 +78,22 @@ def _sync_sources(tree, fresh):
     return changed
 
 
+def stage(path):
+    """Copy a helper script to a place the unprivileged squid user can always read and execute (the checkout of /verif may
+    live under a directory that user cannot enter) and return the copy's path."""
+    data = open(path, 'rb').read()
+    d = vlib.mkdirs(os.path.join(CACHE, 'stage', vlib.sha(data.decode('latin-1'))[:12]))
+    dst = os.path.join(d, os.path.basename(path))
+    if not os.path.exists(dst):
+        with open(dst + '.tmp%d' % os.getpid(), 'wb') as f:
+            f.write(data)
+        os.chmod(dst + '.tmp%d' % os.getpid(), 0o755)
+        os.replace(dst + '.tmp%d' % os.getpid(), dst)
+    for x in (os.path.join(CACHE, 'stage'), d):
+        os.chmod(x, 0o755)
+    return dst
+
+
 def squid_binary(tree):
     p = os.path.join(tree, 'src', 'squid.verif')
     return p if os.path.exists(p) else os.path.join(tree, 'src', 'squid')
